@@ -6,14 +6,24 @@ Decided by spec/Scope.tla (+ ScopeGen.tla, ScopeTrace.tla):
     checker's stack-of-maps walk (ssa_analysis.rs); TLC enumerates every structure of the bounded
     space, well-scoped or not, and checks that the walk accepts exactly the well-scoped ones with
     exactly the specified use->binding map (ScopeGen.tla, invariant RT);
-(2) [BR] TLC enumerates the well-scoped structures (directed generation; their number is compared with
-    the well-scoped ones of the free space); vh scope-run renders each as a function, asks the real
+(2) [BR] TLC enumerates the well-scoped structures, one per class of structures equal up to a permutation
+    of the names (directed canonical generation; their number, weighted by the class sizes, is compared
+    with the well-scoped ones of the free space), with the places where the surface syntax can vary
+    (Scope.tla, SURFACE FORMS: annotated / un-annotated / mixed lambda parameter lists, the lambda called
+    directly or passed to a function, a pattern variable carried by struct patterns in shorthand and
+    `as` form, tuple and variant patterns, nested, in let / match arms / every alternative of an
+    or-pattern / if-let).  Every structure up to `full_cost` is rendered under form vectors that put every
+    place in every spelling it admits, the larger ones under seeded random form vectors; vh scope-run
+    renders each as a function, asks the real
     language services at every identifier occurrence (definition_location, all_references, rename),
     re-checks / compiles / runs every renamed document and renames back; ScopeTrace.tla judges each
-    record against Def / Refs of Scope.tla and the rename clauses of the property.  A sample of
+    record against Def / Refs of Scope.tla -- the same for every spelling -- and the rename clauses of the
+    property.  A sample of
     ill-scoped structures checks that the real checker rejects what the specification calls ill-scoped;
-(3) the same observations at every local-variable occurrence of /repo/tests (and generated programs,
-    when the generator is available), judged by the consistency invariants of ScopeTrace.tla
+(3) the same observations at every local-variable occurrence (also inside closure bodies) of /repo/tests,
+    of generated programs (when the generator is available) and of the hand-written corpus/c15 (closures in
+    every parameter-list form with captured variables, struct patterns in both forms in every pattern
+    position; every binding renamed and run), judged by the consistency invariants of ScopeTrace.tla
     (Real*): no specified relation is needed for them.  Behaviour of the AllTests corpus under a
     sample of renames is run through progcommon.run_programs.
 The verdict is TLC's on the recorded observations; Python only orchestrates."""
@@ -25,17 +35,22 @@ import progcommon
 PID = "C15"
 KF_NESTED_OR = "nested-or-pattern"
 MAX_REPORTS = 5
+CORPUS_RENAMES = 1000    # more than the bindings of a module of corpus/c15: all are renamed
 WITNESS_NESTED_OR = {"params": ["a"], "body": {"k": "blk", "items": [], "fin": {
     "k": "mor3", "scrut": {"k": "use", "x": "a"}, "x": "b", "body": {"k": "use", "x": "b"}}}}
 
 TIERS = {
-    # mc: free space (RT on ill-scoped structures too); gen: directed spaces replayed on the real code
-    # (names, cost, how many to replay: None = all); behaviour: fraction of replayed structures compiled and run
-    "quick": dict(mc=[(("a", "b"), 3)], gen=[(("a", "b"), 3, None)], run_every=12, builds="31",
-                  ill=300, real_renames=2, real_runs=4, gen_programs=12, chunk=7000),
+    # mc: free space (RT on ill-scoped structures too); gen: directed canonical spaces replayed on the real code:
+    #   names, cost; full_cost: structures up to this cost are rendered with every place in every spelling;
+    #   larger: how many of the larger structures are replayed (None = all), reps: random form vectors for each;
+    # behaviour: fraction of replayed renderings compiled and run
+    "quick": dict(mc=[(("a", "b"), 3)],
+                  gen=[dict(names=("a", "b", "c"), cost=3, full_cost=2, larger=15000, reps=1)],
+                  run_every=14, builds="31", ill=300, real_renames=2, real_runs=4, gen_programs=12, chunk=7000),
     "thorough": dict(mc=[(("a", "b"), 3), (("a", "b", "c"), 3), (("a", "b"), 4)],
-                     gen=[(("a", "b", "c"), 3, None), (("a", "b"), 4, 60000)], run_every=8, builds="0,31",
-                     ill=3000, real_renames=12, real_runs=24, gen_programs=150, chunk=8000),
+                     gen=[dict(names=("a", "b", "c"), cost=3, full_cost=2, larger=None, reps=3),
+                          dict(names=("a", "b"), cost=4, full_cost=0, larger=60000, reps=1)],
+                     run_every=8, builds="0,31", ill=3000, real_renames=12, real_runs=24, gen_programs=150, chunk=8000),
 }
 
 
@@ -47,12 +62,13 @@ def open_findings():
     return known_findings(PID)
 
 
-def write_cfg(d, name, names, cost, directed, fixed, invariants):
+def write_cfg(d, name, names, cost, directed, fixed, invariants, canonical=False):
     p = os.path.join(d, name)
     with open(p, "w") as f:
         f.write("INIT Init\nNEXT Next\nCONSTANTS\n")
         f.write("  Names = {%s}\n" % ", ".join('"%s"' % n for n in names))
         f.write(f"  MaxCost = {cost}\n  Directed = {'TRUE' if directed else 'FALSE'}\n")
+        f.write(f"  Canonical = {'TRUE' if canonical else 'FALSE'}\n")
         f.write(f"  NestedOrFixed = {'TRUE' if fixed else 'FALSE'}\n")
         f.write("INVARIANTS " + " ".join(invariants) + "\nCHECK_DEADLOCK FALSE\n")
     return p
@@ -105,6 +121,54 @@ def harness_run(d, name, lines, builds, jobs=8, full=False):
 
 def slim(rec):
     return {k: v for k, v in rec.items() if k not in ("text", "fmt_text")}
+
+
+def names_of(t):
+    """The names a structure mentions (binders and uses)."""
+    out = set()
+
+    def w(v):
+        if isinstance(v, dict):
+            for k, x in v.items():
+                if k in ("x", "y") and isinstance(x, str):
+                    if x != "_":
+                        out.add(x)
+                else:
+                    w(x)
+        elif isinstance(v, list):
+            for x in v:
+                if isinstance(x, str):
+                    out.add(x)
+                else:
+                    w(x)
+    w(t)
+    return out
+
+
+def falling(m, k):
+    """Number of injections of k names into m names: the size of the class of a canonical structure."""
+    r = 1
+    for i in range(k):
+        r *= m - i
+    return r
+
+
+def form_vectors(slots, table, rng, every, reps):
+    """Form vectors of a structure with the given places.  every: as many as the widest place has spellings,
+    place s taking its spellings in turn from a random start (every place in every spelling);
+    otherwise `reps` random vectors."""
+    if not slots:
+        return [[]]
+    ns = [len(table[k]) for k in slots]
+    if every:
+        offs = [rng.randrange(n) for n in ns]
+        return [[table[k][(r + o) % n] for k, o, n in zip(slots, offs, ns)] for r in range(max(ns))]
+    seen = []
+    for _ in range(reps):
+        v = [rng.choice(table[k]) for k in slots]
+        if v not in seen:
+            seen.append(v)
+    return seen
 
 
 def has_mor3(t):
@@ -160,12 +224,13 @@ def judge(d, recs, cfg, tag, known, stats, describe, workers=8):
 
 def describe_structure(d, builds):
     def f(bad, invariant):
-        full = harness_run(d, f"viol{bad['id']}", [{"id": bad["id"], "t": bad["t"], "run": True}], builds, jobs=1, full=True)[0]
+        full = harness_run(d, f"viol{bad['id']}", [{"id": bad["id"], "t": bad["t"], "forms": bad.get("forms", []), "run": True}],
+                           builds, jobs=1, full=True)[0]
         wrong = []
         for j, o in enumerate(full.get("occ", [])):
             wrong.append({"occurrence": j + 1, "name": o["n"], "at": o["loc"], "definition": o["def"],
                           "references": o["refs"], "rename_document": o["ren"]})
-        return save_replay(PID, "structure", {"t": bad["t"], "builds": builds, "text": full.get("text")},
+        return save_replay(PID, "structure", {"t": bad["t"], "forms": bad.get("forms", []), "builds": builds, "text": full.get("text")},
                            f"{invariant} of ScopeTrace.tla (answers = Def/Refs of Scope.tla on this structure)",
                            {"violated": invariant, "answers": wrong, "renamed_documents": full.get("ren"),
                             "diag": full.get("diag"), "run": full.get("run"), "panics": full.get("panics")})
@@ -263,32 +328,61 @@ def run(tier):
         log(f"[mc] {names} cost<={cost}: {mc.distinct} states, {c['structures']} structures "
             f"({c['ill_scoped']} ill-scoped) in {mc.wall:.0f}s")
 
-    # 2. [BR] the well-scoped structures, replayed on the real language services
+    # 2. [BR] the well-scoped structures (one per class up to a permutation of the names), in the spellings their
+    #    places admit, replayed on the real language services
     lines = []
     gen_info = []
-    for names, cost, limit in T["gen"]:
-        cfg = write_cfg(cfgd, f"gen-{''.join(names)}-{cost}.cfg", names, cost, True, fixed, ["RT", "GenSound", "Emit"])
-        g = tlc("ScopeGen", cfg, workers=8, timeout=3000, xmx="16g", tag=f"{PID}gen{len(gen_info)}")
-        tlc_must_pass(g, f"ScopeGen directed enumeration ({names}, cost <= {cost})")
-        trees = [b["t"] for b in behaviours_from(g)]
+    table = None
+    for gi, G in enumerate(T["gen"]):
+        names, cost = G["names"], G["cost"]
+        cfg = write_cfg(cfgd, f"gen-{''.join(names)}-{cost}.cfg", names, cost, True, fixed,
+                        ["RT", "GenSound", "Emit", "EmitForms"], canonical=True)
+        g = tlc("ScopeGen", cfg, workers=8, timeout=3000, xmx="16g", tag=f"{PID}gen{gi}")
+        tlc_must_pass(g, f"ScopeGen directed canonical enumeration ({names}, cost <= {cost})")
+        structs = behaviours_from(g)
+        ft = behaviours_from(g, "FORMS")
         g.out = ""
-        if not trees:
-            tool_failure("ScopeGen produced no structures")
-        free = census_by_space.get((names, cost))
-        if free is not None and free["well_scoped"] != len(trees):
-            tool_failure(f"directed generation is not the well-scoped part of the free space: {len(trees)} vs {free['well_scoped']}")
+        g.printed = []
+        if not structs or not ft:
+            tool_failure("ScopeGen produced no structures or no table of spellings")
+        table = ft[0]
+        # the canonical structures stand for their classes: weighted by the class sizes they are the
+        # well-scoped part of every free space over fewer or as many names with the same bound
+        compared = []
+        for (fnames, fcost), free in census_by_space.items():
+            if fcost == cost and set(fnames) <= set(names):
+                m = len(fnames)
+                weighted = sum(falling(m, k) for k in (len(names_of(b["t"])) for b in structs) if k <= m)
+                if weighted != free["well_scoped"]:
+                    tool_failure(f"directed canonical generation is not the well-scoped part of the free space {fnames}: "
+                                 f"{weighted} vs {free['well_scoped']}")
+                compared.append("".join(fnames))
         mc_states += g.distinct
         mc_trans += g.generated
-        total = len(trees)
-        if limit is not None and total > limit:
-            rng.shuffle(trees)
-            trees = trees[:limit]
-        gen_info.append({"names": list(names), "max_cost": cost, "well_scoped_structures": total,
-                         "replayed": len(trees), "compared_with_free_space": free is not None,
+        small = [b for b in structs if b["cost"] <= G["full_cost"]]
+        large = [b for b in structs if b["cost"] > G["full_cost"]]
+        n_large = len(large)
+        if G["larger"] is not None and n_large > G["larger"]:
+            rng.shuffle(large)
+            large = large[:G["larger"]]
+        n0 = len(lines)
+        for b in small:
+            for fv in form_vectors(b["slots"], table, rng, True, 0):
+                lines.append({"id": len(lines) + 1, "t": b["t"], "forms": fv, "run": False})
+        n1 = len(lines)
+        for b in large:
+            for fv in form_vectors(b["slots"], table, rng, False, G["reps"]):
+                lines.append({"id": len(lines) + 1, "t": b["t"], "forms": fv, "run": False})
+        gen_info.append({"names": list(names), "max_cost": cost, "well_scoped_structures_up_to_renaming": len(structs),
+                         "compared_with_free_spaces": compared,
+                         "structures_rendered_in_every_spelling_of_every_place": len(small),
+                         "renderings_of_those": n1 - n0, "larger_structures": n_large, "larger_structures_replayed": len(large),
+                         "renderings_of_the_larger": len(lines) - n1,
                          "states": g.distinct, "wall_s": round(g.wall, 1)})
-        log(f"[gen] {names} cost<={cost}: {total} well-scoped structures ({len(trees)} replayed) in {g.wall:.0f}s")
-        for t in trees:
-            lines.append({"id": len(lines) + 1, "t": t, "run": False})
+        log(f"[gen] {names} cost<={cost}: {len(structs)} well-scoped structures up to renaming in {g.wall:.0f}s; "
+            f"{len(small)} in every spelling ({n1 - n0} renderings), {len(large)} of {n_large} larger ones "
+            f"({len(lines) - n1} renderings)")
+        del structs, small, large
     for i in rng.sample(range(len(lines)), max(1, len(lines) // T["run_every"])):
         lines[i]["run"] = True
     # more of the structures with the nested or-pattern are run (the finding lives there)
@@ -297,10 +391,11 @@ def run(tier):
             ln["run"] = True
     n_wellscoped = len(lines)
     for t in ill_trees:
-        lines.append({"id": len(lines) + 1, "t": t["t"], "run": False})
+        lines.append({"id": len(lines) + 1, "t": t["t"], "forms": [], "run": False})
     # observed and judged in batches (the records of a thorough run do not fit in memory at once)
     desc = describe_structure(d, T["builds"])
     n_recs = occs = rens = accepted = 0
+    spelled = {}
     t_h = t_j = 0.0
     BATCH = 42000
     for b0 in range(0, len(lines), BATCH):
@@ -311,9 +406,14 @@ def run(tier):
         occs += sum(len(r["occ"]) for r in recs)
         rens += sum(len(r["ren"]) for r in recs)
         accepted += sum(1 for r in recs if r["accepted"])
+        for r in recs:
+            if r["accepted"]:
+                for k, fm in zip(r.get("slots", []), r.get("forms", [])):
+                    spelled.setdefault(k, {})
+                    spelled[k][fm] = spelled[k].get(fm, 0) + 1
         if b0 == 0:
             k = min(200, len(recs) - 1)
-            samples.append({"structure": recs[k]["t"],
+            samples.append({"structure": recs[k]["t"], "forms": recs[k].get("forms"),
                             "answers": [{f: o[f] for f in ("n", "loc", "def", "refs")} for o in recs[k]["occ"]][:4]})
         tj = time.time()
         parts = [recs[k:k + T["chunk"]] for k in range(0, len(recs), T["chunk"])]
@@ -324,7 +424,11 @@ def run(tier):
         del recs, parts
         if fails >= MAX_REPORTS:
             break
-    log(f"[harness] {n_recs} structures observed in {t_h:.0f}s; judged by ScopeTrace.tla in {t_j:.0f}s")
+    log(f"[harness] {n_recs} renderings observed in {t_h:.0f}s; judged by ScopeTrace.tla in {t_j:.0f}s")
+    # vacuity: every spelling of every kind of place was rendered, accepted and judged
+    missing = [f"{k}:{fm}" for k in (table or {}) for fm in table[k] if not spelled.get(k, {}).get(fm)]
+    if missing and fails == 0:
+        tool_failure(f"vacuity: spellings never rendered in an accepted program: {missing}")
     if known == "nestedor" and stats["known_seen"] == 0:
         log("[known-finding] the witness reproduces but no enumerated structure shows the finding")
 
@@ -395,13 +499,36 @@ def run(tier):
     except SystemExit:
         raise
     log(f"[real] generated programs: {gen_info_real}")
+    # the hand-written corpus (corpus/c15/*.sam: closures in every parameter-list form with captured variables,
+    # struct patterns in both forms in every pattern position): every occurrence, every binding renamed, run
+    corpus_info = {"programs": 0}
+    cdir = os.path.join(VERIF, "corpus", "c15")
+    cfiles = sorted(f for f in os.listdir(cdir) if f.endswith(".sam")) if os.path.isdir(cdir) else []
+    if cfiles:
+        cp = os.path.join(d, "corpus-progs.ndjson")
+        cprogs = [{"origin": f"corpus/c15/{f}", "sources": {f[:-4]: open(os.path.join(cdir, f)).read()}, "entry": f[:-4],
+                   "with_std": True} for f in cfiles]
+        write_ndjson(cp, cprogs)
+        cpath = os.path.join(d, "real-corpus.ndjson")
+        out, _ = vh(["scope-real", "--no-repo", "--gen", cp, "--out", cpath, "--max-renames", CORPUS_RENAMES, "--seed", real_seed,
+                     "--builds", "31"], timeout=3000)
+        corpus_info = dict(json.loads(out), programs=len(cprogs))
+        if corpus_info.get("programs_not_accepted"):
+            tool_failure(f"a program of corpus/c15 is not accepted by the compiler under test: {corpus_info}")
+        crecs = read_ndjson(cpath)
+        programs = {"gen:" + p["origin"]: p for p in cprogs}
+        crecs_t = [dict(r, ren=[{k: v for k, v in x.items() if k != "text"} for x in r["ren"]]) for r in crecs]
+        fails += judge(d, crecs_t, "ScopeTraceReal.cfg", "corpus", known, stats, describe_module(real_seed, CORPUS_RENAMES, programs))
+        log(f"[real] corpus/c15: {corpus_info}")
     coverage = {
         "states": mc_states, "transitions": mc_trans,
-        "traces_validated_against_impl": n_recs + len(real) + gen_info_real.get("modules", 0),
+        "traces_validated_against_impl": n_recs + len(real) + gen_info_real.get("modules", 0) + corpus_info.get("modules", 0),
         "samples": samples,
         "free_spaces_model_checked": mc_info,
         "well_scoped_spaces_replayed": gen_info,
-        "structures_replayed": n_wellscoped,
+        "spellings": table,
+        "renderings_replayed": n_wellscoped,
+        "renderings_per_spelling": spelled,
         "ill_scoped_structures_replayed": len(lines) - n_wellscoped,
         "structures_accepted_by_the_checker": accepted,
         "identifier_occurrences_queried": occs,
@@ -410,6 +537,7 @@ def run(tier):
         "structures_compiled_and_run_with_all_renamed_documents": stats["ran"],
         "real_programs": dict(real_info, alltests_behaviour_runs=len(cand)),
         "generated_programs": gen_info_real,
+        "corpus_programs": corpus_info,
         "nested_or_defect_present": present,
         "records_showing_the_known_finding": stats["known_seen"],
         "trace_states_checked_by_tlc": stats["tlc_states"],
@@ -421,8 +549,10 @@ def run(tier):
         "exhaustive": False,
     }
     write_evidence(PID, tier, "model_checking", coverage,
-                   ["the harness's rendering of a structure (harness/src/scope.rs) is the concrete syntax Scope.tla describes; "
-                    "ScopeTrace.tla checks the number, order and names of the identifier occurrences of every record",
+                   ["the harness's rendering of a structure under a form vector (harness/src/scope.rs) is the concrete syntax "
+                    "Scope.tla describes; ScopeTrace.tla checks the places, their spellings, and the number, order and names of "
+                    "the identifier occurrences of every record",
+                    "of the structures that differ only by a permutation of the names, the canonical one is replayed",
                     "identifiers are queried at their first and last character",
                     "behaviour is observed on the WebAssembly back end through the harness interpreter, for Main.main calling the function with 4 argument tuples",
                     "texts are compared through 64-bit FNV digests",
@@ -442,7 +572,7 @@ def replay(path):
     known = "nestedor" if present and any(k.get("id") == KF_NESTED_OR for k in open_findings()) else "none"
     if rp["kind"] == "structure":
         builds = case.get("builds", "31")
-        recs = harness_run(d, "replay", [{"id": 1, "t": case["t"], "run": True}], builds, jobs=1)
+        recs = harness_run(d, "replay", [{"id": 1, "t": case["t"], "forms": case.get("forms", []), "run": True}], builds, jobs=1)
         n = judge(d, [slim(r) for r in recs], "ScopeTrace.cfg", "replay", known, stats, describe_structure(d, builds))
         return 1 if n else 0
     out_p = os.path.join(d, "real-replay.ndjson")
